@@ -28,6 +28,9 @@ pub struct Container {
     pub key: Option<i64>,
     /// (item, sequence number of its entry into the *queue* this container belongs to)
     pub items: VecDeque<(String, u64)>,
+    /// capacity of the underlying worker (0 for injectors): hidden state that decides when the
+    /// container overflows, so it is part of the canonical state key
+    pub cap: usize,
 }
 
 #[derive(Default)]
@@ -79,7 +82,7 @@ pub fn choice(n: usize) -> usize {
 fn new_container(kind: &'static str) -> usize {
     with(|c| {
         let id = c.containers.len();
-        c.containers.push(Container { id, kind, map: None, key: None, items: VecDeque::new() });
+        c.containers.push(Container { id, kind, map: None, key: None, items: VecDeque::new(), cap: 0 });
         id
     })
 }
@@ -127,7 +130,11 @@ pub struct Stealer<'a, T> {
 
 impl<T: Debug> Worker<T> {
     pub fn new(min_capacity: usize) -> Self {
-        Worker { inner: st3::fifo::Worker::new(min_capacity), cid: new_container("worker") }
+        let inner = st3::fifo::Worker::new(min_capacity);
+        let cid = new_container("worker");
+        let cap = inner.capacity();
+        with(|c| c.containers[cid].cap = cap);
+        Worker { inner, cid }
     }
     pub fn stealer(&self) -> Stealer<'_, T> {
         Stealer { src: self }
